@@ -603,7 +603,7 @@ class _Gen(object):
             return self.t_pointer('elem')
         if self.rare and r == 8 and self.chance(1, 4):
             # a container element without element types of its own (valid: <type> allows zero children)
-            return {'t': 'list', 'name': 'GLib.List', 'elem': None, 'ctype': 'GList*', '_bare_nested': True}
+            return {'t': 'list', 'name': 'GLib.List', 'elem': None, 'ctype': 'GList*'}
         return self.t_container('elem', depth + 1)
 
     def t_any(self, where):
